@@ -98,7 +98,8 @@ def run(tier, seed):
     from lib.evidence import Report, load_known
     code1 = run_property('C09', scenarios(tier), tier, seed)
     root = os.path.dirname(os.path.dirname(os.path.abspath(__file__)))
-    ev1 = json.load(open(os.path.join(root, 'evidence', 'C09.json')))
+    from lib import evidence as _ev
+    ev1 = json.load(open(os.path.join(_ev.OUT, 'evidence', 'C09.json')))
     rep = Report('C09', tier, seed, clear_replays=False)
     rep.assumptions = ev1.get('assumptions', []) + [
         'numeric clauses on real adaptive runs (Adaptivity with embedded error estimate, StepSizeLimiter / StepSizeSlopeLimiter, one step per '
